@@ -1,5 +1,7 @@
 import Qryn.Sql.Segs
 import Qryn.Gen.Params
+import Qryn.Gen.GrammarFields
+import Qryn.LogQL.JsonParserSegs
 namespace Driver.C10
 open Qryn Qryn.Lex Qryn.Sql
 
@@ -10,11 +12,21 @@ def tokStr : Tok → String
   | .punct c => "P:" ++ toHex [c]
   | .err => "E"
 
+/-- comma list of hex byte strings (`-` = empty list, `.` = an empty string inside a list) -/
+def hexList (s : String) : Option (List Bytes) :=
+  if s = "-" then some [] else (s.splitOn ",").mapM (fun x => if x = "." then some [] else ofHex x)
+
 def handle : List String → Option String
   | ["quote", h] => (ofHex h).map (fun b => hexOut (quote b))
   | ["like", h] => (ofHex h).map (fun b => hexOut (likeLiteral b))
   | ["lex", h] => (ofHex h).map (fun b => " ".intercalate ((lex b).map tokStr))
   | ["c10params"] => some (";".intercalate (Gen.params.map (fun (f, h, k, n) => f ++ "|" ++ h ++ "|" ++ k ++ "|" ++ n)))
+  | ["c10grammar"] => some (";".intercalate (Gen.grammarFields.map (fun (l, s, f, k, t) => l ++ "|" ++ s ++ "|" ++ f ++ "|" ++ k ++ "|" ++ t)))
+  | ["c10json", col, id, labels, paths] => do
+    let c ← ofHex col
+    let ls ← hexList labels
+    let ps ← if paths = "-" then some [] else (paths.splitOn ";").mapM hexList
+    some (hexOut (LogQL.jsonParserText c (← id.toNat?) ls ps))
   | ["kinds", h] => (ofHex h).map (fun b => " ".intercalate ((kinds b).map tokStr))
   | _ => none
 end Driver.C10
